@@ -8,7 +8,7 @@ Verdict protocol (DESIGN.md §3C):
   * infrastructure trouble                                                               → exit 2, never a VIOLATION line
 """
 from __future__ import annotations
-import os, sys, json, time, random, importlib, traceback, argparse, hashlib
+import os, sys, json, time, random, importlib, traceback, argparse, hashlib, re
 
 HERE = os.path.dirname(os.path.abspath(__file__))
 VERIF = os.path.dirname(HERE)
@@ -270,6 +270,7 @@ def main(argv=None):
             "disagreements": len(disagreements), "corpus_cases": n_corpus,
             "op_distribution": dist, "result_distribution": errkinds,
             "gen_changed": st.get("gen", {}).get("changed", []),
+            "source_translated_functions": _src_functions(pid, st),
             "helpers_changed": changed_sources, "generator_tier": gen_tier,
             "known_findings_reconfirmed": reconfirmed,
             "lean_failures": st["failures"], "build_s": st.get("build_s"),
@@ -292,6 +293,21 @@ def main(argv=None):
     print(f"{pid} {tier} seed={seed}: {len(lines)} cases, {st['discharged']}/{st['obligations']} theorems, "
           f"{len(disagreements)} disagreements, {len(flagged)} oracle flags, verdict={verdict}, {ev['wall_s']}s")
     return rc
+
+
+def _src_functions(pid, st):
+    """The functions of /repo that harness/translate.py translated for this run and that Props/<pid>_Src.lean ties to the
+    hand-written model (name, file, AST digest, translated or not)."""
+    path = os.path.join(VERIF, "lean", "BitstringModel", "Props", pid + "_Src.lean")
+    if not os.path.exists(path):
+        return []
+    src = open(path).read()
+    out = []
+    for f in st.get("gen", {}).get("translated", []) or []:
+        short = f["lean"].split(".")[-1]
+        if re.search(r"Gen\.Src\." + re.escape(short) + r"\b", src):
+            out.append(f)
+    return out
 
 
 if __name__ == "__main__":
